@@ -290,9 +290,11 @@ def replay_kani(ov, h, prop, tag, r, timeout=900):
         p = subprocess.run(cmd, cwd=ov, capture_output=True, text=True, env=env, timeout=timeout + 300,
                            preexec_fn=_limits(24))
         out = p.stdout + p.stderr
-        m = re.search(r"```\s*\n(.*?#\[test\].*?)```", out, re.S)
-        if m:
-            test_src = m.group(1)
+        blocks = re.findall(r"```\s*\n(.*?#\[test\].*?)```", out, re.S)
+        # Kani also emits playback tests for satisfied `cover!` statements; those are not counterexamples
+        blocks = [b for b in blocks if not re.search(r"Check for `cover`", b)]
+        if blocks:
+            test_src = "\n".join(blocks[:4])
     except subprocess.TimeoutExpired:
         out = "concrete playback generation timed out"
     if test_src:
@@ -310,9 +312,8 @@ def replay_kani(ov, h, prop, tag, r, timeout=900):
                 s = open(fp, errors="replace").read()
                 if modfile in s:
                     open(fp, "w").write(s.replace(modfile, ovmod))
-        tname = re.search(r"fn\s+(kani_concrete_playback_\w+)", test_src)
         cmd2 = ["cargo", "kani", "playback", "-Z", "concrete-playback", "--lib",
-                "--", tname.group(1) if tname else "kani_concrete_playback"]
+                "--", "kani_concrete_playback_" + h["name"]]
         env2 = dict(env, CARGO_TARGET_DIR=KANI_TARGET + "-playback")
         try:
             p2 = subprocess.run(cmd2, cwd=ov, capture_output=True, text=True, env=env2, timeout=1800)
